@@ -124,11 +124,10 @@ def emit_run(tier, seed, d, prior=0):
             paths_m.setdefault(cid, set()).add(p.split('#', 1)[0])
 
         def note(cid, x):
-            case_dis.setdefault(cid, []).append({k: x[k] for k in ('file', 'section', 'docs_only', 'presence', 'docs_differ')})
-            if len(disagreements) < 400:
-                disagreements.append(x)
-            else:
-                disagreements.append(None)
+            case_dis.setdefault(cid, []).append({k: x.get(k) for k in ('file', 'section', 'docs_only', 'presence', 'docs_differ', 'one_sided')})
+            if len(disagreements) >= 400:
+                x = {k: x.get(k) for k in ('case', 'file', 'section', 'docs_only', 'presence', 'docs_differ', 'one_sided')}   # light record: the view filter needs it
+            disagreements.append(x)
         for (cid, p) in sorted(keys):
             if ri.get(cid) != 'ok' or rm.get(cid) != 'ok':
                 continue
@@ -153,7 +152,7 @@ def emit_run(tier, seed, d, prior=0):
             docs_only = [x for x in ta if not isdoc(x)] == [x for x in tb if not isdoc(x)]
             docs_differ = [x.strip() for x in ta if isdoc(x)] != [x.strip() for x in tb if isdoc(x)]
             k = next((jj for jj, (x, y) in enumerate(zip(ta, tb)) if x != y), min(len(ta), len(tb)))
-            note(cid, {'case': cid, 'file': path, 'section': sec, 'docs_only': docs_only, 'docs_differ': docs_differ, 'presence': False, 'first_differing_line': k,
+            note(cid, {'case': cid, 'file': path, 'section': sec, 'docs_only': docs_only, 'docs_differ': docs_differ, 'presence': False, 'one_sided': not (a and b), 'first_differing_line': k,
                        'impl': ta[max(0, k - 2):k + 3] or ['<section absent>'], 'model': tb[max(0, k - 2):k + 3] or ['<section absent>'],
                        'spec': dehex(cases.get(cid, ''))[:5000] if len(disagreements) < 40 else ''})
         for l in open(f'{d}/efeatures_{i}.txt'):
@@ -221,7 +220,8 @@ def in_view(prop, x):
     if not any(a.match(x['file']) and b.search(x.get('section', '*')) for a, b in v['pats']):
         return False
     if v['docs_lines_only']:
-        return bool(x.get('docs_differ'))
+        # an item that exists on one side only is not documentation of the spec gone astray (other views judge its presence)
+        return bool(x.get('docs_differ')) and not x.get('one_sided')
     if x.get('docs_only') and not v['docs']:
         return False
     return True
@@ -235,8 +235,10 @@ def agrees_in_view(prop, cid):
     return not any(in_view(prop, x) for x in CASE_DIS.get(cid, ()))
 
 
-def compile_run(tier, seed, d):
+def compile_run(tier, seed, d, targeted=None):
     """rustc over whole crates emitted by the real CLI (stand-in dependency crates under /verif/standins).
+    targeted: case ids of the emission run (the search for a failing input after a broken correspondence): the crates of
+    exactly those cases are generated again (same specs, examples on) and compiled.
     Returns (stats, unexpected errors [(case, target, message, spec)], {class: [(case, msg)]}, unconfirmed)."""
     import shutil
     cd = f'{d}/crates'
@@ -247,8 +249,17 @@ def compile_run(tier, seed, d):
 
     def gen(i):
         sh(f'{HARNESS} emit-crates --seed {seed} --n {per} --out {cd} --shard {i} --profile {profs[i % len(profs)]} > /dev/null 2>{cd}/err_{i}.txt')
+
+    def gen_targeted(i):
+        ids = [c for c in targeted if c // 100000 == i]
+        if ids:
+            n = max(c % 100000 for c in ids) + 1
+            sh(f'{HARNESS} emit-crates --as-emit --ids {",".join(map(str, ids))} --seed {seed} --n {n} --out {cd} --shard {i} --profile {"wild" if i % 3 == 1 else "rich"} > /dev/null 2>{cd}/err_{i}.txt')
     with ThreadPoolExecutor(16) as ex:
-        list(ex.map(gen, range(8)))
+        if targeted:
+            list(ex.map(gen_targeted, range(16)))
+        else:
+            list(ex.map(gen, range(8)))
     rc, out, _ = sh(f'python3 {ROOT}/tools/compile_crates.py {cd} --examples', timeout=7200)
     specs = {}
     gen_outcomes = {}
@@ -702,6 +713,22 @@ def run(prop, tier, seed, extra_props=(), also_hir=False, compile_layer=False, d
                 findings.append((cid, 'C09', '', msg, spec))
             det_part = dict(dstats, rule='corpus (alias chains, unsorted paths, many components) then generated (spec, config) pairs (profiles big/rich/tame); per case: JSON into a fresh directory, YAML into a directory at another depth from another working directory, JSON again in place over the first tree, then more JSON runs in fresh directories - every run a separate process with its own hash seeds; all exits and all trees must be identical byte for byte')
         mine = (prop,) + tuple(extra_props)
+        if compile_layer and not any(f[1] in mine and (f[1], f[2]) not in known_map for f in findings):
+            # the correspondence is broken inside this property's view and nothing failed so far: compile the crates of
+            # the very cases on which model and implementation disagree (search for a failing input)
+            ids = []
+            for x in disagreements:
+                try:
+                    c = int(x.get('case')) if x and x.get('file') else None
+                except (TypeError, ValueError):
+                    c = None
+                if c is not None and c < 900000 and c not in ids:
+                    ids.append(c)
+            if ids:
+                tstats, terrs, tknown, _ = compile_run(tier, seed, d, targeted=ids[:24])
+                compile_part['targeted_search'] = dict(cases=ids[:24], crates=tstats)
+                for cid, target, msg, spec in terrs:
+                    findings.append((cid, 'C16' if target == 'example' else 'C02', '', 'rustc (crate of a case on which model and implementation disagree): ' + msg, spec))
         for cid, p, cls, msg, spec in findings:
             if p not in mine:
                 continue
